@@ -228,6 +228,18 @@ func (x *TExec) opConnect(st *TStep) { //nolint:cyclop
 
 		return
 	}
+	if st.N > 0 && !t0.Add(time.Duration(st.N)*time.Second+400*time.Millisecond).Before(a.deadline) {
+		// the allocation's lifetime ran out while the server was still dialling: whatever is
+		// answered, the connection that comes out of that dial belongs to nobody - it may not
+		// stay (C15: peer connections are exactly those of the live allocations)
+		x.St.inc("tcp:connect-outlives-allocation")
+		x.settle()
+		if pe := x.w.peers[pi].TryAccept(); pe != nil && !pe.Peer().IsClosed() {
+			x.fail([]string{"C15", "C16", "C06"}, "connection-on-ended-allocation", "the allocation expired while the server was dialling %v for a Connect (answered with %s); the connection that resulted is still open at the server", p, respDesc(resp))
+		}
+
+		return
+	}
 	if !ok && st.Dup {
 		// the id drawn was taken: refusing (or not answering) the Connect is fine, as long as the
 		// connection that was dialled for it does not stay behind
@@ -310,10 +322,6 @@ func (x *TExec) opConnect(st *TStep) { //nolint:cyclop
 		treg = t0.Add(time.Duration(st.N)*time.Second + 400*time.Millisecond) // when the dial completed
 	}
 	tc := &tConn{id: id, peer: p, deadline: treg.Add(30 * time.Second), srvEnd: pe.Peer(), peerEnd: pe}
-	if !treg.Before(a.deadline) {
-		tc.orphan = true // the allocation expired while the dial was in flight
-		x.St.inc("tcp:connect-outlives-allocation")
-	}
 	if c.alloc != a && !tc.orphan {
 		tc.gone = true // the allocation ran out while this step was under way (the purge above saw it)
 	}
